@@ -288,7 +288,7 @@ def make_body(fn: str, spec: Dict[str, Any]) -> Callable[..., Any]:
         ex.node_exit(key, ok=True)
         return val
 
-    body.__name__ = fn
+    body.__name__ = spec.get("pyname", fn)  # (__name__ may be shared by functions whose __qualname__ differs)
     # user functions are often defined inside other functions: their qualified name (which tawazi uses as the
     # node id) then contains dots and angle brackets
     body.__qualname__ = spec.get("qual", fn)
